@@ -93,6 +93,7 @@ class Ctx(object):
         self.info = {}
         self.required = {}         # counter name -> minimum for a conclusive run
         self.inconclusive = []
+        self.ambient = None        # process-wide conditions of this shard (hash seed, working directory), set by the worker
         self.t0 = time.time()
 
     # ---- observation helpers -------------------------------------------------------
@@ -129,6 +130,8 @@ class Ctx(object):
                 d['observed'] = jsonable(observed)
             if note:
                 d['note'] = note
+            if self.ambient and (self.ambient.get('hashseed') != '0' or self.ambient.get('cwd') != VERIF or self.ambient.get('optimize')):
+                d['ambient'] = self.ambient
             w.append(d)
         if self.replay:
             print('  violated [%s] case=%r expected=%r observed=%r %s' % (
